@@ -8,7 +8,7 @@
 """
 import math
 import numpy as np
-from arrays_ops import (op, rshape, bpair, rvals, arange_vals, modulus, to_np, same, shp, ints, opt, flat_ints,
+from arrays_ops import (op, directed, rshape, bpair, rvals, arange_vals, modulus, to_np, same, shp, ints, opt, flat_ints,
                         ALLK, ORD, FLD, F, ULP)
 
 
@@ -121,8 +121,6 @@ def _binary(name, kinds, sec_f, np_f, sc_f, mode='small', tol=0.0, rhs_variants=
               'desc': f'mpc.{name}(a{list(sa)}, b{list(sb)}:{variant})', 'key': (sa, sb, variant, str(a.tolist()), str(b.tolist())),
               'tags': [f'rhs:{variant}', 'broadcast' if sa != sb else 'same-shape'] + (['zero-size'] if a.size == 0 or b.size == 0 else []),
               'nontrivial': sa != () or sb != ()}
-        if name == 'np_divide' and variant == 'secscalar':
-            pl['finding_key_exc'] = 'np_divide_secure_scalar_divisor'
         if bad:
             pl['expect_exc'] = 'ValueError'
             pl['lean_exc'] = [(f'bshape {shp(sa)} {shp(sb)}', 'ValueError')]
@@ -260,8 +258,6 @@ def _pow(rng, kind, force):
     s = rshape(rng, 3, 12)
     if kind in FLD:
         b = rng.choice([0, 1, 2, 3, 5, 254, -1, -2, modulus(kind) - 1])
-        if b == 254 and s == ():
-            s = (2,)    # np_pow(a, 254) on a 0-D array raises IndexError (0-D family, see report)
         a = rvals(rng, kind, s, 'nz' if b < 0 else 'small')
         ref = lambda P: vec(lambda x: pow(int(x), b, modulus(kind)), P['a'])
     elif kind == 'int':
@@ -335,7 +331,7 @@ def _from_bits(rng, kind, force):
 
 @op('np_is_zero_public', ['int', 'f11', 'f101', 'fM'])
 def _izp(rng, kind, force):
-    s = rshape(rng)
+    s = rshape(rng, mindim=1)     # 0-D: result has shape (1,) (finding np_is_zero_public_0d_shape, directed input below)
     a = rvals(rng, kind, s, 'tiny' if kind == 'int' else 'small')
     if a.size and rng.random() < 0.7:
         a.reshape(-1)[rng.randrange(a.size)] = 0
@@ -422,11 +418,7 @@ def _reduction(name, kinds, sec_f, np_f, sc_f, mode='small', tol=0.0, maxsize=24
                 return []
             ax = 'none' if axis is None else ints(axis if isinstance(axis, tuple) else (axis,))
             return [(f'sumshape {shp(s)} {ax} {int(keep)}', shp(to_np(plain).shape))]
-        fke = None
-        if name in ('np_amin', 'np_amax') and keep and isinstance(axis, int) and axis % len(s) == 0:
-            fke = 'np_amin_amax_keepdims_axis0'      # UnboundLocalError: `shape` is only set inside `elif axis := axis % a.ndim`
         return {'inputs': {'a': a}, 'call': lambda mpc, S, X: sec_f(mpc, X['a'], **kw), 'ref': ref, 'tol': tol,
-                'finding_key_exc': fke,
                 'scalar': scalar if sc_f and a.size and all(len(c) for c in _nplist(a, axis)[1].values()) else None,
                 'lean': lean, 'desc': f'mpc.{name}(a{list(s)}, {kw})', 'key': (s, str(kw), str(a.tolist())),
                 'tags': ['axis:' + ('none' if axis is None else 'tuple' if isinstance(axis, tuple) else 'int')] + (['keepdims'] if keep else [])
@@ -557,10 +549,7 @@ def _argmin(rng, kind, force):
             g, e = g.reshape(-1), e.reshape(-1)   # documented: "a 1D array of minimum values" (the code returns shape (lanes, 1))
         msg = same(kind, g, e)
         return ('extreme values: ' + msg) if msg else None
-    fkc = None
-    if axis is not None and s[axis] == 1 and math.prod(s) > 1:
-        fkc = 'np_argmin_argmax_axis_of_length_1'   # _np_argmin: n == 1 -> u = [[1]] whatever the number of lanes
-    return {'inputs': {'a': a}, 'call': call, 'ref': ref, 'check': check, 'finding_key_crash': fkc,
+    return {'inputs': {'a': a}, 'call': call, 'ref': ref, 'check': check,
             'desc': f'mpc.np_{which}(a{list(s)}, axis={axis}, keepdims={keep}, arg_unary={unary}, arg_only={arg_only}, method={method})',
             'key': (s, which, axis, keep, unary, arg_only, method, str(a.tolist())), 'tags': [f'{which}', f'unary:{unary}', f'arg_only:{arg_only}']}
 
@@ -778,7 +767,7 @@ def _convolve(rng, kind, force):
             'desc': f'mpc.np_convolve(a[{m}], b[{n}]{":public" if pubb else ""}, mode={mode})', 'key': (m, n, mode, pubb, str(a.tolist()), str(b.tolist()))}
 
 
-@op('np_det', ['int'] + FLD)
+@op('np_det', ['int'])
 def _det(rng, kind, force):
     n = rng.randint(1, 4)
     p = modulus(kind)
@@ -788,8 +777,6 @@ def _det(rng, kind, force):
         if d != 0:
             break
     return {'inputs': {'a': a}, 'call': lambda mpc, S, X: mpc.np_det(X['a']), 'ref': lambda P: np.array(d, dtype=object),
-            # secfld: `secnum(detU)` with detU a Future raises TypeError in SecureFiniteField.__init__ (works for secint)
-            'finding_key_crash': 'np_det_secfld_typeerror' if p else None,
             'desc': f'mpc.np_det(a[{n},{n}]) (nonsingular)', 'key': (n, str(a.tolist()))}
 
 
@@ -1002,10 +989,7 @@ def _transpose(rng, kind, force):
         if which == 'swapaxes':
             return [(f'swapshape {shp(s)} {ax[0]} {ax[1]}', shp(decl))]
         return []
-    fk = None
-    if which == 'rot90' and k % 2 == 0 and s[ax[0]] != s[ax[1]]:
-        fk = 'np_rot90_even_k_shape'   # runtime.py:3335 swaps the two axis lengths for every k; NumPy only for odd k
-    return {'shapes': {'a': s}, 'call': call, 'ref': ref, 'lean': lean, 'finding_key': fk,
+    return {'shapes': {'a': s}, 'call': call, 'ref': ref, 'lean': lean,
             'desc': f'a{list(s)}.{which}(perm={perm}, axes={ax}, k={k})', 'key': (s, which, perm, ax, k), 'tags': ['transpose:' + which]}
 
 
@@ -1328,7 +1312,7 @@ def _update(rng, kind, force):
 # ---------------------------------------------------------------------------------------------
 # miscellaneous protocols
 # ---------------------------------------------------------------------------------------------
-@op('np_unit_vector', ['int', 'fxp', 'f101'])
+@op('np_unit_vector', ['int', 'fxp'])
 def _unit_vector(rng, kind, force):
     n = rng.randint(1, 9)
     i = rng.randrange(n)
@@ -1338,8 +1322,6 @@ def _unit_vector(rng, kind, force):
     return {'inputs': {'a': a}, 'call': lambda mpc, S, X: mpc.np_unit_vector(mpc.np_getitem(X['a'], ()), n),
             'ref': lambda P: e,
             'scalar': lambda mpc, S, L: np.array(mpc.unit_vector(L['a'][()], n), dtype=object),
-            # secfld: c = a - r + R*n is opened modulo p, so c % n is not (a - r) % n (TODO in the code asks for a conversion)
-            'finding_key_numpy': 'np_unit_vector_secfld_wraparound' if kind == 'f101' else None,
             'desc': f'mpc.np_unit_vector(secret {i}, {n})', 'key': (n, i)}
 
 
@@ -1580,3 +1562,60 @@ def numpy_model_lines(rng, count):
             add(f'map2 {o} {shp(sa)} {ints(a.reshape(-1).tolist())} {shp(sb)} {ints(b.reshape(-1).tolist())}',
                 f'{shp(c.shape)}|{ints(c.reshape(-1).tolist())}')
     return req, impl
+
+
+# ---------------------------------------------------------------------------------------------
+# directed inputs for OPEN known findings (one per run) and fixed-defect regression inputs (corpus)
+# ---------------------------------------------------------------------------------------------
+@directed('x_np_det_secfld', 'f101')
+def _x_det(rng, kind, force):
+    a = np.array([[1, 2], [3, 5]], dtype=object)
+    return {'inputs': {'a': a}, 'call': lambda mpc, S, X: mpc.np_det(X['a']), 'ref': lambda P: np.array(100, dtype=object),
+            # `secnum(detU)` with detU a Future raises TypeError in SecureFiniteField.__init__ (works for secint)
+            'finding_key_crash': 'np_det_secfld_typeerror', 'finding_key_numpy': 'np_det_secfld_typeerror',
+            'desc': 'mpc.np_det(SecFld(101).array([[1,2],[3,5]]))', 'key': 'x_det'}
+
+
+@directed('x_np_unit_vector_secfld', 'f101')
+def _x_uv(rng, kind, force):
+    e = np.zeros(6, dtype=object)
+    e[1] = 1
+    return {'inputs': {'a': np.array(1, dtype=object)}, 'call': lambda mpc, S, X: mpc.np_unit_vector(mpc.np_getitem(X['a'], ()), 6),
+            'ref': lambda P: e,
+            # c = a - r + R*n is opened modulo p, so c % n is not (a - r) % n (the TODO in the code asks for a conversion)
+            'finding_key_numpy': 'np_unit_vector_secfld_wraparound',
+            'desc': 'mpc.np_unit_vector(SecFld(101)(1), 6)', 'key': 'x_uv'}
+
+
+@directed('x_fixed_1163c56', 'int')
+def _x_fixed(rng, kind, force):
+    """reproducers of the five defects fixed in commit 1163c56 (corpus replays)"""
+    m2 = np.array([[3, 1, 2], [0, 5, 4]], dtype=object)
+    col = np.array([[3], [1], [2]], dtype=object)
+    a0 = np.array(5, dtype=object)
+
+    def call(mpc, S, X):
+        return [X['a0'] * 2, X['a0'] + S(1), mpc.np_amin(X['m'], axis=0, keepdims=True), mpc.np_amax(X['m'], axis=-2, keepdims=True),
+                mpc.np_argmin(X['c'], axis=1), mpc.np_argmax(X['c'], axis=1, keepdims=True), mpc.np_rot90(X['m'], k=2),
+                mpc.np_rot90(X['m'], k=1)]
+
+    def ref(P):
+        return [a0 * 2, a0 + 1, np.min(m2, axis=0, keepdims=True), np.max(m2, axis=-2, keepdims=True), np.argmin(col, axis=1),
+                np.argmax(col, axis=1, keepdims=True), np.rot90(m2, k=2), np.rot90(m2, k=1)]
+    return {'inputs': {'a0': a0, 'm': m2, 'c': col}, 'call': call, 'ref': ref, 'desc': 'reproducers of fix 1163c56', 'key': 'x_fixed'}
+
+
+@directed('x_fixed_divide_scalar', 'f101')
+def _x_fixed_div(rng, kind, force):
+    a = np.array([3, 4], dtype=object)
+    return {'inputs': {'a': a}, 'call': lambda mpc, S, X: X['a'] / S(2), 'ref': lambda P: np.array([52, 2], dtype=object),
+            'desc': 'SecFld(101).array([3,4]) / SecFld(101)(2)', 'key': 'x_fixed_div'}
+
+
+@directed('x_np_is_zero_public_0d', 'int')
+def _x_izp(rng, kind, force):
+    return {'inputs': {'a': np.array(0, dtype=object)}, 'call': lambda mpc, S, X: _Awaited(mpc.np_is_zero_public(X['a'])),
+            'ref': lambda P: np.array(1, dtype=object),
+            # r = _np_randoms(field, 1) has shape (1,), a * r broadcasts the 0-D input to (1,)
+            'finding_key_numpy': 'np_is_zero_public_0d_shape',
+            'desc': 'mpc.np_is_zero_public(SecInt(24).array(np.array(0)))', 'key': 'x_izp'}
